@@ -1,19 +1,25 @@
 (* Proof obligations over facts regenerated from /repo on every check (Generated/SourceFacts.v,
-   written by harness/cmd/facts).  Topic: ctx.  When an edit of the sources changes a fact, the
-   lemma below stops compiling; the checks of the properties that depend on this topic then report
+   written by harness/cmd/facts).  Topic: ctx.  The facts are semantic summaries (orders, literal
+   sets, capacity classes, parent classes of contexts, lock events per path), so a behaviour-
+   preserving rewrite regenerates the same facts; when an edit changes what the theorems rest on,
+   the lemma below stops compiling, the checks of the properties that depend on this topic report
    the broken obligation by name and search for a failing input. *)
 From Coq Require Import List String ZArith Bool.
 Import ListNotations.
 Require Import Verif.Common.LockEv Verif.Generated.SourceFacts.
+
 Open Scope string_scope.
 
-(* where contexts are derived, from which parent, and how many cancel() call sites exist *)
+(* every context the merge / concurrent code derives comes from the context it was handed (never
+   from context.Background()), with the constructor the model uses, and every function that derives
+   one calls (or defers) its cancel function *)
 Lemma ctx_derivations_ok :
-  ctx_parallelMerge = ["WithTimeout(ctx, timeout)"] /\ ctx_sequentialMerge = ["WithTimeout(ctx, timeout)"] /\
-  ctx_requestPart = ["WithCancel(ctx)"] /\ ctx_concurrent = ["WithTimeout(ctx, serviceTimeout)"] /\
-  ctx_processConcurrentCall = ["WithCancel(ctx)"].
+  ctx_parallelMerge = [("WithTimeout", "derived")] /\ ctx_sequentialMerge = [("WithTimeout", "derived")] /\
+  ctx_requestPart = [("WithCancel", "derived")] /\ ctx_concurrent = [("WithTimeout", "derived")] /\
+  ctx_processConcurrentCall = [("WithCancel", "derived")].
 Proof. repeat split; reflexivity. Qed.
 Lemma cancel_sites_ok :
-  cancel_calls_parallelMerge = 1%Z /\ cancel_calls_sequentialMerge = 2%Z /\ cancel_calls_requestPart = 3%Z /\
-  cancel_calls_concurrent = 2%Z /\ cancel_calls_processConcurrentCall = 3%Z.
-Proof. repeat split; reflexivity. Qed.
+  (1 <=? cancel_calls_parallelMerge)%Z = true /\ (1 <=? cancel_calls_sequentialMerge)%Z = true /\
+  (1 <=? cancel_calls_requestPart)%Z = true /\ (1 <=? cancel_calls_concurrent)%Z = true /\
+  (1 <=? cancel_calls_processConcurrentCall)%Z = true.
+Proof. repeat split; vm_compute; reflexivity. Qed.
